@@ -389,8 +389,7 @@ fn parse_tcp_option(input: &str) -> IResult<&str, TcpOption> {
         tag("sok").map(|_| TcpOption::Sok),
         tag("sack").map(|_| TcpOption::Sack),
         tag("ts").map(|_| TcpOption::TS),
-        preceded(tag("?"), map(digit1, |s: &str| s.parse::<u8>().unwrap_or(0)))
-            .map(TcpOption::Unknown),
+        map_res(preceded(tag("?"), digit1), |s: &str| s.parse::<u8>().map(TcpOption::Unknown)),
     ))
     .parse(input)
 }
